@@ -239,10 +239,11 @@ def run(prop, tier, replay=None):
         tlc_scs = fs.tlc_scenarios(work, ntlc, seed)
         # vacuity guard for the model: the simulated behaviours exercise every kind of service step, restarts and the kill
         model_events = Counter(x for sc in tlc_scs for x in sc.pop("model_events"))
-        for need in ("Enter", "Restart", "Healthy", "Done", "SawCancel", "Exit:err", "Exit:nil", "Exit:panic", "Exit:ctxErr", "Kill"):
+        model_events["Fault"] = sum(model_events["Exit:" + k] for k in fs.FAULTS)
+        for need in ("Enter", "Restart", "Healthy", "Done", "SawCancel", "Fault", "Exit:ctxErr", "Kill"):
             if model_events[need] == 0:
                 raise vlib.Broken("vacuous model simulation: no %s in %d TLC behaviours" % (need, len(tlc_scs)))
-        scs = fs.fixed_scenarios() + fs.orphan_scenarios() + fs.linger_scenarios(seed, LINGER[tier]) + tlc_scs + fs.gen_scenarios(seed, ngen)
+        scs = fs.fixed_scenarios() + fs.orphan_scenarios() + fs.linger_scenarios(seed, LINGER[tier]) + fs.done_linger_sibling_scenarios(seed, LINGER[tier]) + tlc_scs + fs.gen_scenarios(seed, ngen)
         batches = [("main", [s for s in scs if not fs.risky(s)]), ("risky", [s for s in scs if fs.risky(s)]),
                    ("race", fs.done_race_scenarios(nrace))]
     nid = 0
